@@ -111,7 +111,9 @@ def gen_case(rng, tier):
             ops.append({"op": "clear_class_cache"})
         else:
             ops.append({"op": "enumerate", "basis": rng.randrange(nb)})
-    return {"universe": uni, "bases": bases, "ops": ops, "nmax": 6 if tier == "quick" else 7}
+    # some histories start on whatever the earlier histories of this process left in the
+    # memo tables (a long-lived process); a violation that needs that is replayed as a run range
+    return {"universe": uni, "bases": bases, "ops": ops, "nmax": 6 if tier == "quick" else 7, "keep_memo": rng.random() < 0.4}
 
 
 def cases(rng, tier):
@@ -173,9 +175,12 @@ def execute(case):
     pm.Av.clear_cache()
     for lock in common.isolate_locks():
         lock._reset()  # pylint: disable=protected-access
-    for table in (getattr(PolyPerms, "_CACHE", None), getattr(InsertionEncodablePerms, "_CACHE", None)):
-        if isinstance(table, dict):
-            table.clear()
+    if not case.get("keep_memo"):
+        for table in (getattr(PolyPerms, "_CACHE", None), getattr(InsertionEncodablePerms, "_CACHE", None)):
+            if isinstance(table, dict):
+                table.clear()
+    else:
+        out.probe("memo_kept_from_earlier_histories")
     uni = [tuple(p) for p in case["universe"]]
     touched_by = {}  # perm tuple (as seen by the memo) -> set of (basis index, entry family)
     abst = []
